@@ -412,7 +412,21 @@ Definition drive_packet (fuel : nat) (w : world) : world * outcome progress :=
 
 (* fill_packet_reader; `hd` = what the caller does on error (Connection- or Session-level handle_disconnect) *)
 Inductive fillres := FillOk | FillErr (e : err) | FillTimeout | FillCancel | FillFuel.
-Fixpoint fill_packet_reader (fuel : nat) (deadline : option N) (w : world) : world * fillres :=
+(* `with_deadline(deadline, read_packet())` polls the read first and the timer second, and an embassy timer yields once before it
+   reports that it has expired.  So the first read of a fill that has to wait always waits (the runner's rule in io_read), but
+   once the select has waited (`y`), a read that finds nothing to read after the deadline loses to the timer at once: the read
+   future is dropped without any time passing.  A "future dropped" event of the script is left for the next await point. *)
+Definition timer_fired (y : bool) (deadline : option N) (w : world) : bool :=
+  y && match deadline with
+       | Some d =>
+           (d <=? w_now w) &&
+           (let k := fst (fst (next_ev w)) in
+            negb (N.eqb k 1) && negb (N.eqb k 2) &&
+            (N.eqb k 3 || match fst (avail_split (w_now w) (w_inq w)) with [] => true | _ :: _ => false end))
+       | None => false
+       end.
+
+Fixpoint fill_go (fuel : nat) (y : bool) (deadline : option N) (w : world) : world * fillres :=
   match fuel with
   | O => (w, FillFuel)
   | S f =>
@@ -423,6 +437,7 @@ Fixpoint fill_packet_reader (fuel : nat) (deadline : option N) (w : world) : wor
       | (r', Some win) =>
           let w0 := upd_sess w (set_reader s r') in
           if N.eqb win 0 then (w0, FillOk) else
+          if timer_fired y deadline w0 then (upd_log w0 (s2t "r " ++ show_N win ++ s2t " drop"), FillTimeout) else
           let '(w1, r) := io_read win deadline w0 in
           match r with
           | RFail => (w1, FillErr ETransport)
@@ -430,10 +445,13 @@ Fixpoint fill_packet_reader (fuel : nat) (deadline : option N) (w : world) : wor
           | RTimeout => (w1, FillTimeout)
           | RData [] => (w1, FillErr EDisconnected)
           | RData d =>
-              fill_packet_reader f deadline (upd_sess w1 (set_reader (w_sess w1) (commit (s_reader (w_sess w1)) d)))
+              fill_go f (y || negb (N.eqb (w_waits w1) (w_waits w0))) deadline
+                      (upd_sess w1 (set_reader (w_sess w1) (commit (s_reader (w_sess w1)) d)))
           end
       end
   end.
+Definition fill_packet_reader (fuel : nat) (deadline : option N) (w : world) : world * fillres :=
+  fill_go fuel false deadline w.
 
 (* wait_for_progress *)
 Fixpoint wait_for_progress (fuel : nat) (w : world) : world * outcome progress :=
